@@ -974,4 +974,165 @@ theorem emit_body1 (T : Tables) (hC : contOK T = true) (cfg : Cfg) (s : S1) (b :
     simp only [hm] at hc
     rw [chrStartStep1_code, hcode] at hc; cases hc
 
+theorem emit_finishCore (T : Tables) (cfg : Cfg) {c : Core} (m : Mode) (tok : List Byte) (h : Inv c) :
+    Emit c (finishCore T cfg c m tok) := by
+  unfold finishCore
+  have key : ∀ c1 : Core, Emit c c1 → Emit c (match c1.halt with
+      | some _ => c1
+      | none => match c1.stack with
+        | [] => c1
+        | _ :: _ => c1.fail (.incomplete c1.starts.length)) := by
+    intro c1 h1
+    split
+    · exact h1
+    · split
+      · exact h1
+      · exact h1
+  apply key
+  cases m with
+  | tok t => exact emit_consume T cfg t tok h
+  | str m => cases m <;> exact emit_fail _ _
+  | esc => exact emit_fail _ _
+  | rune => exact emit_fail _ _
+  | chrStart => exact emit_pushChar T [] h
+  | plain p => cases p <;> first | exact Or.inl rfl | exact emit_fail _ _
+
+theorem good_run1_off (T : Tables) (hT : tablesOK T = true) (cfg : Cfg) (hc : cfg.one = false)
+    (bs : List Byte) (s : S1) (h : Good s.core) : Good (run1 T cfg s bs).core := by
+  induction bs generalizing s with
+  | nil => simpa [run1] using h
+  | cons b rest ih =>
+    have : Good (step1 T cfg s b).core := by
+      unfold step1
+      cases hh : s.core.halt with
+      | some x => simpa using h
+      | none =>
+        simp only [oneCheck_off cfg hc]
+        exact good_body1 T hT cfg s b h
+    simpa [run1] using ih _ this
+
+/-- One-form mode from a live state with nothing emitted yet. If it reaches the end of the bytes
+    without halting, nothing was emitted and it ran in lockstep with whole-text mode. If it halted
+    with a position `p`, exactly one object was emitted, `p` lies within the bytes, and the
+    whole-text run from the same state is `Rel`ated to a *fresh* whole-text run over the bytes from
+    `p` on. -/
+theorem locate (T : Tables) (hT : tablesOK T = true) (hC : contOK T = true) (cfg : Cfg) (bs : List Byte) :
+    ∀ s : S1, s.core.halt = none → s.core.code = [] → Inv s.core →
+      ((run1 T { cfg with one := true } s bs).core.halt = none →
+        (run1 T { cfg with one := true } s bs).core.code = [] ∧
+        run1 T { cfg with one := true } s bs = run1 T { cfg with one := false } s bs) ∧
+      (∀ p, (run1 T { cfg with one := true } s bs).core.halt = some (.one p) →
+        ∃ o, (run1 T { cfg with one := true } s bs).core.code = [o] ∧ s.pos ≤ p ∧ p ≤ s.pos + bs.length ∧
+          Rel [o] p (run1 T { cfg with one := false } s bs)
+            (run1 T { cfg with one := false } init1 (bs.drop (p - s.pos)))) := by
+  induction bs with
+  | nil =>
+    intro s hh hcode _
+    refine ⟨fun _ => ⟨hcode, rfl⟩, ?_⟩
+    intro p hp
+    simp only [run1, List.foldl_nil] at hp
+    rw [hh] at hp; cases hp
+  | cons b rest ih =>
+    intro s hh hcode hinv
+    have hbody : body1 T { cfg with one := true } s b = body1 T { cfg with one := false } s b :=
+      body1_cfg T _ _ rfl rfl s b
+    have h0 : step1 T { cfg with one := false } s b =
+        { body1 T { cfg with one := false } s b with pos := s.pos + 1 } := by
+      unfold step1
+      simp only [hh, oneCheck]
+      cases (body1 T { cfg with one := false } s b).core.halt <;> simp
+    have hgood : Good (body1 T { cfg with one := false } s b).core :=
+      good_body1 T hT _ s b (good_of_none hh)
+    have hinvB : Inv (body1 T { cfg with one := false } s b).core := by
+      have := inv_step1 T { cfg with one := false } s b hinv
+      rw [h0] at this
+      exact this
+    have hposB : (body1 T { cfg with one := false } s b).pos = s.pos := body1_pos T _ s b
+    simp only [run1, List.foldl_cons]
+    generalize hB : body1 T { cfg with one := false } s b = B at h0 hbody hgood hinvB hposB
+    have h1 : step1 T { cfg with one := true } s b =
+        { B with core := oneCheck { cfg with one := true } s.pos b B.core, pos := s.pos + 1 } := by
+      unfold step1
+      simp only [hh, hbody]
+    rw [h0, h1]
+    cases hBh : B.core.halt with
+    | some x =>
+      have e1 : oneCheck { cfg with one := true } s.pos b B.core = B.core := by simp [oneCheck, hBh]
+      rw [e1]
+      have hne : ({ B with pos := s.pos + 1 } : S1).core.halt ≠ none := by simp [hBh]
+      have r1 := run1_halted T { cfg with one := true } rest _ hne
+      simp only [run1] at r1
+      rw [r1]
+      refine ⟨fun hl => by simp [hBh] at hl, ?_⟩
+      intro p hp
+      simp only [hBh] at hp
+      rcases hgood with hg | ⟨e, _, hg⟩
+      · rw [hBh] at hg; cases hg
+      · rw [hBh] at hg; cases hg; cases hp
+    | none =>
+      cases hBc : B.core.code with
+      | nil =>
+        have e1 : oneCheck { cfg with one := true } s.pos b B.core = B.core := by simp [oneCheck, hBh, hBc]
+        rw [e1]
+        have := ih { B with pos := s.pos + 1 } (by simpa using hBh) (by simpa using hBc) (by simpa using hinvB)
+        simp only [run1] at this
+        refine ⟨this.1, ?_⟩
+        intro p hp
+        obtain ⟨o, ho, hle, hge, hrel⟩ := this.2 p hp
+        have hle' : s.pos + 1 ≤ p := hle
+        have hge' : p ≤ s.pos + 1 + rest.length := hge
+        have hrel' : Rel [o] p (List.foldl (step1 T { cfg with one := false }) { B with pos := s.pos + 1 } rest)
+            (List.foldl (step1 T { cfg with one := false }) init1 (List.drop (p - (s.pos + 1)) rest)) := hrel
+        refine ⟨o, ho, by omega, by simp only [List.length_cons]; omega, ?_⟩
+        have hd : p - s.pos = (p - (s.pos + 1)) + 1 := by omega
+        rw [hd, List.drop_succ_cons]
+        exact hrel'
+      | cons o tl =>
+        have e1 : (oneCheck { cfg with one := true } s.pos b B.core).halt =
+            some (.one (if isCloser b then s.pos + 1 else s.pos)) := by simp [oneCheck, hBh, hBc]
+        have e2 : (oneCheck { cfg with one := true } s.pos b B.core).code = o :: tl := by
+          simp [oneCheck, hBh, hBc]
+        have hne : ({ B with core := oneCheck { cfg with one := true } s.pos b B.core, pos := s.pos + 1 } : S1).core.halt ≠ none := by
+          simp [e1]
+        have r1 := run1_halted T { cfg with one := true } rest _ hne
+        simp only [run1] at r1
+        rw [r1]
+        refine ⟨fun hl => by simp [e1] at hl, ?_⟩
+        intro p hp
+        simp only [e1, Option.some.injEq, Halt.one.injEq] at hp
+        have hem := emit_body1 T hC { cfg with one := false } s b hinv hcode (by rw [hB]; exact hBh) o tl
+          (by rw [hB]; exact hBc)
+        rw [hB] at hem
+        obtain ⟨htl, hcase⟩ := hem
+        subst htl
+        refine ⟨o, by simpa using e2, ?_⟩
+        rcases hcase with ⟨hcl, hfresh⟩ | ⟨hcl, s0, hfresh, hpos0, hEq⟩
+        · -- the byte that completed the form belongs to it
+          simp only [hcl, if_true] at hp
+          subst hp
+          refine ⟨by omega, by simp only [List.length_cons]; omega, ?_⟩
+          have hd : s.pos + 1 - s.pos = 0 + 1 := by omega
+          rw [hd, List.drop_succ_cons, List.drop_zero]
+          have hf : FreshAt o ({ B with pos := s.pos + 1 } : S1) :=
+            ⟨hfresh.mode, hfresh.stack, hfresh.starts, hfresh.code, hfresh.halt⟩
+          have := rel_run1 T hC { cfg with one := false } rfl rest (fresh_rel hf)
+          simpa [run1] using this
+        · -- the byte ended a token and is looked at again by the fresh reader
+          simp only [hcl, Bool.false_eq_true, if_false] at hp
+          subst hp
+          refine ⟨by omega, by simp only [List.length_cons]; omega, ?_⟩
+          rw [Nat.sub_self, List.drop_zero]
+          have hrel0 : Rel [o] s.pos s0 init1 := by
+            have := fresh_rel hfresh
+            rwa [hpos0] at this
+          have hstep := rel_step1 T hC { cfg with one := false } rfl b hrel0
+          have hs0 : step1 T { cfg with one := false } s0 b = { B with pos := s.pos + 1 } := by
+            unfold step1
+            simp only [hfresh.halt, oneCheck_off { cfg with one := false } rfl]
+            unfold body1
+            simp only [hfresh.mode, ← hEq, hpos0]
+          rw [hs0] at hstep
+          have := rel_run1 T hC { cfg with one := false } rfl rest hstep
+          simpa [run1] using this
+
 end SlipVerif.Reader
